@@ -187,8 +187,10 @@ where
 
     let minimum_spanning = UnGraph::from_elements(min_spanning_tree(&metric_closure_graph));
 
-    let (subgraph_edges, subgraph_nodes) =
+    let (subgraph_edges, mut subgraph_nodes) =
         subgraph_edges_from_metric_closure(graph, &minimum_spanning);
+    // A single terminal lies on no path between terminals, but belongs to the tree.
+    subgraph_nodes.extend(terminals.iter().copied());
 
     let mut graph = StableGraph::from(graph.clone());
     graph.retain_edges(|graph, e| {
